@@ -38,6 +38,33 @@ CHECKS = {
           "closed without internal error; the last close leaves no row of that mailbox/nameplate and changes no other row; "
           "a re-sent close changes nothing; remaining subscribers keep delivery and messages.",
      tech="explicit-state BFS of the implementation with an open-side ghost and before/after row comparison"),
+ "C04": dict(cat="model_checking", ref="DESIGN.md §3.5, §4 C04",
+     text="(a) BFS over histories of allocate (rank first/last/mid in the sorted candidate list), explicit claims of numeric "
+          "and non-numeric names, release, expiry, listing allowed and disallowed. (b) Constructed states through the real "
+          "API: 1-digit subsets x 2-/3-digit block variants x odd extra names x listing x rank, and the all-999-taken "
+          "state with scripted randrange collisions. Oracle: the candidate list handed to random.choice equals the free "
+          "names of the shortest length that has one (all outcomes of the choice at once); answer is a positive decimal "
+          "without leading zero, not in use in that app; the claim exists and is committed when `allocated` leaves.",
+     tech="explicit-state BFS + exhaustive constructed-state family on the implementation, random choice owned by the harness"),
+ "C09": dict(cat="model_checking", ref="DESIGN.md §4 C09",
+     text="BFS on file-backed databases, with and without a usage db, 3 sides (crowded paths), sweeps; the oracle runs inside "
+          "sendMessage: at every outbound frame a brand-new sqlite3 connection to each database file must read exactly what "
+          "the server's own connection reads, and what the frame acknowledges (claimed/allocated/message) must be visible "
+          "to that reader; PRAGMA synchronous >= FULL and a persistent journal are asserted.",
+     tech="explicit-state BFS of the implementation with an independent second database reader at every outbound frame"),
+ "C10": dict(cat="fault_enumeration", ref="DESIGN.md §3.4, §4 C10",
+     text="BFS over histories on file-backed databases (without / with usage db); during the last event of every history the "
+          "directory image before every SQL statement and around every commit is captured; every distinct image must pass "
+          "the start-up integrity check, hold no duplicate records, give the re-sent in-flight claim/release/open/close the "
+          "uncrashed answer and rows, and - nobody returning - be swept empty over E+3P without internal errors.",
+     tech="explicit-state BFS + exhaustive crash-image enumeration (statement/commit boundaries) with both continuations on the implementation"),
+ "C17": dict(cat="model_checking", ref="DESIGN.md §4 C17",
+     text="BFS where from every reachable protocol state of 2-3 connections every command of the FULL alphabet is tried "
+          "(each type with required fields present/absent, optional fields, extra keys, no/unknown/non-string type, odd "
+          "Unicode identifiers); per command: welcome, ack-first with id echo, type+server_tx on every frame, ping/pong, "
+          "malformed => exactly one error with orig, rows unchanged, others undisturbed, connection still usable; "
+          "well-formed => never a validation error; no exception escapes onMessage. One known finding (F2).",
+     tech="explicit-state BFS of the implementation with a protocol-state ghost deciding the expected class of answer"),
  "C06": dict(cat="model_checking", ref="DESIGN.md §3.2, §4 C06",
      text="Lockstep product exploration: world 0 runs the full history mixing apps X and Y (identical names, sides, "
           "mailbox ids, messages; usage db on), world 1 only Y's events plus sweeps/restarts. After every event Y's frames, "
